@@ -86,6 +86,8 @@ def to_val(x):
     """z3 Val term for an engine value"""
     if isinstance(x, SVal):
         return x.z
+    if isinstance(x, Sym) and hasattr(type(x), "as_val"):
+        return x.as_val()
     if x is None:
         return Val.VNone
     if x is NotImplemented:
@@ -418,6 +420,9 @@ def identical(a, b):
     raise Unsupported("`is` on %r, %r" % (a, b))
 
 
+CONTAINS_HOOK = None
+
+
 def int_set_cond(x, ints):
     """x in (set of python ints) as a disjunction of ranges"""
     ints = sorted(set(ints))
@@ -444,8 +449,9 @@ def contains(coll, x):
             return x in coll
         except TypeError:
             raise Unsupported("in on %r" % (coll,))
-    if (isinstance(coll, HeapRef) and hasattr(coll, "contains")):
-        return coll.contains(x)
+    if isinstance(coll, SVal):
+        # membership in a dynamic collection: a pure uninterpreted predicate of (collection, element)
+        return CONTAINS_HOOK(coll, x)
     if isinstance(coll, (dict, set, frozenset, tuple, list)):
         keys = list(coll)
         if isinstance(x, SInt):
